@@ -28,11 +28,23 @@ Like the compiler, `infer` resolves `.label` to a position: it returns the ELABO
 namespace QM.Soundness
 open QM.Types QM.RefSem
 
+/-- what a successful match tells about the matched value (`apply_narrowing` on the success path). -/
+inductive NarrowRule where
+  /-- no forward narrowing (step 1 of the block fragment) -/
+  | none
+  /-- current code (47b34c5): the scrutinee is narrowed to the MATCHED type -/
+  | matched
+  /-- before 47b34c5: narrowed to `result_type`, which carries nil as the "may fail" marker — a
+  nil variant of the scrutinee survives a refutable match -/
+  | withNilMarker
+  deriving DecidableEq, Repr
+
 /-- the rules under test (defaults = the code as it is). -/
 structure InferCfg where
   seq : SeqRule := .accumulated
   idx : IndexRule := .always
   unify : Rules := Rules.current
+  narrow : NarrowRule := .matched
   /-- fuel of the table functions (`foV`, `getFieldByName`, `unify`, `substitute`): `fuel + 2` -/
   fuel : Nat := 30
 
@@ -84,13 +96,18 @@ def unionOfTypes (T : Table) (fuel : Nat) (tys : List Nat) : Option Nat :=
     | _ => none
   else none
 
+/-- `union_type_ids(program, ids)`, provided it is already in the table. -/
+def unionMany (T : Table) (fuel : Nat) (ids : List Nat) : Option Nat :=
+  if ids.all (foV T fuel) then
+    (if (unionIds T ids).1 = T then some (unionIds T ids).2 else none)
+  else none
+
 /-- `without_nil`: the threaded value of a sequence is not nil. -/
 def withoutNil (T : Table) (fuel t : Nat) : Option Nat :=
   if foV T fuel t then
     match (flat1 T t).filter (fun i => !isNilTy T i) with
-    | [a] => some a
-    | [a, b] => unionPair T fuel a b
-    | _ => none
+    | [] => none
+    | rest => unionMany T fuel rest
   else none
 
 /-! ### Builtins: the shapes of the regenerated signature table the reference evaluator covers -/
@@ -221,7 +238,106 @@ def inferCall (c : Ctx) (p r a : Nat) : Option Nat :=
     | _ => none
   else none
 
-/-! ### Terms, chains, fields -/
+/-! ### Patterns (analyze_pattern, for the first-order shapes of the fragment)
+
+binder, `_`, integer / binary literal, `='int` / `='bin`, exact tuple pattern with sub-patterns.
+`seen` = the names bound so far by THIS pattern (a repeated name would be an equality test: outside). -/
+
+structure PatRes where
+  /-- the bindings the pattern makes, innermost (last bound) first -/
+  binds : TEnv
+  /-- the type of the values on which the pattern can succeed (`matched_type`) -/
+  matched : Nat
+  /-- the pattern succeeds on every value of the scrutinee type (no run-time requirement) -/
+  irref : Bool
+
+/-- the tuple variant `k` has the name, arity and labels of the pattern. -/
+def tupleShape (c : Ctx) (n : Option String) (labels : List (Option String)) (k : Nat) : Option TupleInfo :=
+  match c.T.types[k]? with
+  | some (.tuple id) =>
+    match c.T.tuples[id]? with
+    | some info =>
+      if info.name = n.map c.nm ∧ info.fields.map (·.1) = labels.map (fun l => l.map c.nm) then some info
+      else none
+    | none => none
+  | _ => none
+
+/-- what the scrutinee is narrowed to when a pattern whose matched type is `m` succeeded. -/
+def narrowTo (c : Ctx) (t m : Nat) (irref : Bool) : Option Nat :=
+  match c.cfg.narrow with
+  | .none => some t
+  | .matched => some m
+  | .withNilMarker =>
+    if !irref && nilIn c.T (c.cfg.fuel + 2) t then
+      match tupleType c.T none [] with
+      | some n => unionPair c.T (c.cfg.fuel + 2) m n
+      | none => none
+    else some m
+
+/-- literal patterns and `='int` / `='bin`: the leaf type must be a variant of the scrutinee. -/
+def leafRes (c : Ctx) (t : Nat) (ty : Types.Ty) (isTest : Bool) : Option PatRes :=
+  match findType c.T ty with
+  | some i =>
+    if (flat1 c.T t).contains i then
+      let irref := isTest && decide (t = i)
+      match narrowTo c t i irref with
+      | some m => some ⟨[], m, irref⟩
+      | none => none
+    else none
+  | none => none
+
+/-- `'int`, `'bin` or a tuple type. -/
+def simpleTy (T : Table) (j : Nat) : Bool :=
+  match T.types[j]? with
+  | some .integer => true
+  | some .binary => true
+  | some (.tuple _) => true
+  | _ => false
+
+/-- a tuple pattern is in the fragment on a flat union of `'int` / `'bin` / tuple types. -/
+def tupScrutOk (c : Ctx) (t : Nat) : Bool :=
+  foV c.T (c.cfg.fuel + 2) t && (flat1 c.T t).all (simpleTy c.T)
+
+mutual
+  def inferPat (c : Ctx) (seen : List String) (t : Nat) : Pat → Option PatRes
+    | .bind x => if seen.contains x then none else some ⟨[(x, t)], t, true⟩
+    | .wild => some ⟨[], t, true⟩
+    | .lit (.int _) => leafRes c t .integer false
+    | .lit (.bin _) => leafRes c t .binary false
+    | .type .int => leafRes c t .integer true
+    | .type .bin => leafRes c t .binary true
+    | .tup n pfs =>
+      if !tupScrutOk c t then none else
+      match (flat1 c.T t).filter (fun k => (tupleShape c n (pfs.map (·.1)) k).isSome) with
+      | [k] =>
+        match tupleShape c n (pfs.map (·.1)) k with
+        | some info =>
+          match inferPatFields c seen (info.fields.map (·.2)) pfs with
+          | some (binds, ms, irr) =>
+            -- fields narrowed by the sub-patterns: the reconstructed tuple type (outside unless
+            -- the sub-patterns leave the field types as they are)
+            if ms = info.fields.map (·.2) then
+              let irref := irr && decide (t = k)
+              match narrowTo c t k irref with
+              | some m => some ⟨binds, m, irref⟩
+              | none => none
+            else none
+          | none => none
+        | none => none
+      | _ => none
+    | _ => none
+  def inferPatFields (c : Ctx) (seen : List String) :
+      List Nat → List (Option String × Pat) → Option (TEnv × List Nat × Bool)
+    | [], [] => some ([], [], true)
+    | ft :: fts, (_, p) :: ps =>
+      match inferPat c seen ft p with
+      | some r =>
+        match inferPatFields c (r.binds.map (·.1) ++ seen) fts ps with
+        | some (bs, ms, irr) => some (bs ++ r.binds, (if c.cfg.narrow = .none then ft else r.matched) :: ms, r.irref && irr)
+        | none => none
+      | none => none
+    | _, _ => none
+end
 
 def labelSeen (label : Option String) (seen : List String) : Bool :=
   match label with
@@ -235,6 +351,74 @@ def pushLabel (label : Option String) (seen : List String) : List String :=
 
 def okTy (c : Ctx) : Option Nat := tupleType c.T (some (c.nm "Ok")) []
 def nilTy (c : Ctx) : Option Nat := tupleType c.T none []
+
+/-- the type of a match verdict: `Ok`, or `Ok | []` when the pattern can fail. -/
+def verdictTy (c : Ctx) (irref : Bool) : Option Nat :=
+  match okTy c with
+  | some ok =>
+    if irref then some ok
+    else
+      match nilTy c with
+      | some n => unionPair c.T (c.cfg.fuel + 2) ok n
+      | none => none
+  | none => none
+
+/-- a pattern applied to a value of type `t` in context `Γ`: verdict type, context afterwards. -/
+def applyPat (c : Ctx) (Γ : TEnv) (t : Nat) (p : Pat) : Option (Nat × TEnv × PatRes) :=
+  match inferPat c [] t p with
+  | some r =>
+    match verdictTy c r.irref with
+    | some vt => some (vt, r.binds ++ Γ, r)
+    | none => none
+  | none => none
+
+/-- the variable whose value a chain `x =P` matches, and the pattern. -/
+def scrutVar (ch : Chain) : Option (String × Pat) :=
+  match ch with
+  | .mk none [.access (.var x) [], .mtch p] => some (x, p)
+  | _ => none
+
+/-- `apply_narrowing` for a chain `x =P` that succeeded: `x` is recorded with the narrowed type. -/
+def narrowVar (c : Ctx) (Γ Γ1 : TEnv) (ch : Chain) : TEnv :=
+  match scrutVar ch with
+  | some (x, p) =>
+    match tlookup Γ x with
+    | some t0 =>
+      match inferPat c [] t0 p with
+      | some r => if (r.binds.map (·.1)).contains x then Γ1 else (x, r.matched) :: Γ1
+      | none => Γ1
+    | none => Γ1
+  | none => Γ1
+
+/-- the block parameter as a branch's consequence sees it: narrowed by a leading `=P`. -/
+def narrowParam (c : Ctx) (ft : Nat) (cond : List Chain) : Nat :=
+  match cond with
+  | .mk none [.mtch p] :: _ =>
+    (match inferPat c [] ft p with
+     | some r => r.matched
+     | none => ft)
+  | _ => ft
+
+/-- `compile_sequence`: the last chain's type, with nil added when the nil bookkeeping of
+`Sequence.lean` (under the configured rule) says the sequence can short-circuit. -/
+def seqType (c : Ctx) (ts : List Nat) : Option Nat :=
+  match ts.getLast? with
+  | none => none
+  | some tl =>
+    if seqNilable c.cfg.seq (ts.map (nilIn c.T (c.cfg.fuel + 2))) then
+      match nilTy c with
+      | some n => unionPair c.T (c.cfg.fuel + 2) tl n
+      | none => none
+    else some tl
+
+/-- is the block exhaustive? The last branch decides: its condition cannot be nil. -/
+def exhaustiveFlag (c : Ctx) (isLast : Bool) (tc : Nat) (exRest : Bool) : Bool :=
+  if isLast then !nilIn c.T (c.cfg.fuel + 2) tc else exRest
+
+/-! ### Terms, chains, fields, sequences, blocks
+
+`ro` ("refutable patterns allowed"): a pattern that can fail yields nil and leaves its variables
+unbound, so it may only end a chain of a SEQUENCE (which short-circuits), never a tuple-field chain. -/
 
 mutual
   /-- `inferTerm c Γ ft t` : the flowing value has type `ft`; answers the type of the term's value,
@@ -292,30 +476,51 @@ mutual
           | _, _ => none
         | none => none
       else none
+    -- `{ | cond => cons | … }` : compile_scoped_expression; the flowing value is the block's
+    -- parameter; bindings made inside do not escape
+    | .block (.mk branches) =>
+      match inferBranches c Γ ft branches with
+      | some (tys, exhaustive, brs') =>
+        match nilTy c with
+        | some n =>
+          match unionMany c.T (c.cfg.fuel + 2) (if exhaustive then tys else tys ++ [n]) with
+          | some t => some (t, Γ, .block (.mk brs'))
+          | none => none
+        | none => none
+      | none => none
     | _ => none
 
-  def inferTerms (c : Ctx) (Γ : TEnv) (ft : Nat) : List Term → Option (Nat × TEnv × List Term)
+  /-- a chain's terms. With `ro`, the LAST term may be a pattern that can fail. -/
+  def inferTerms (c : Ctx) (ro : Bool) (Γ : TEnv) (ft : Nat) :
+      List Term → Option (Nat × TEnv × List Term)
     | [] => some (ft, Γ, [])
+    | [.mtch p] =>
+      match applyPat c Γ ft p with
+      | some (vt, Γ', r) => if ro || r.irref then some (vt, Γ', [.mtch p]) else none
+      | none => none
     | t :: ts =>
       match inferTerm c Γ ft t with
       | some (t1, Γ1, t') =>
-        match inferTerms c Γ1 t1 ts with
+        match inferTerms c ro Γ1 t1 ts with
         | some (t2, Γ2, ts') => some (t2, Γ2, t' :: ts')
         | none => none
       | none => none
 
-  def inferChain (c : Ctx) (Γ : TEnv) (ft : Nat) : Chain → Option (Nat × TEnv × Chain)
+  /-- answers (type, context afterwards, elaborated chain). -/
+  def inferChain (c : Ctx) (ro : Bool) (Γ : TEnv) (ft : Nat) : Chain → Option (Nat × TEnv × Chain)
     | .mk pat terms =>
-      match inferTerms c Γ ft terms with
-      | some (t, Γ', terms') =>
-        match pat with
-        | none => some (t, Γ', .mk none terms')
-        | some (.bind x) =>
-          match okTy c with
-          | some ok => some (ok, (x, t) :: Γ', .mk (some (.bind x)) terms')
+      match pat with
+      | none =>
+        match inferTerms c ro Γ ft terms with
+        | some (t, Γ', terms') => some (t, Γ', .mk none terms')
+        | none => none
+      | some p =>
+        match inferTerms c false Γ ft terms with
+        | some (t, Γ', terms') =>
+          match applyPat c Γ' t p with
+          | some (vt, Γ'', r) => if ro || r.irref then some (vt, Γ'', .mk (some p) terms') else none
           | none => none
-        | some _ => none
-      | none => none
+        | none => none
 
   /-- the fields of a tuple construction, left to right; `seen` = the labels so far (a repeated
   label would overwrite in place: outside the fragment). Answers (label, type) per field. -/
@@ -325,51 +530,79 @@ mutual
     | .val label ch :: rest =>
       if labelSeen label seen then none
       else
-        match inferChain c Γ ft ch with
+        match inferChain c false Γ ft ch with
         | some (t, Γ1, ch') =>
           match inferFields c Γ1 ft (pushLabel label seen) rest with
           | some (ftys, Γ2, rest') => some ((label, t) :: ftys, Γ2, .val label ch' :: rest')
           | none => none
         | none => none
     | .spread _ :: _ => none
+
+  /-- the chains of a sequence: each later chain starts from the previous result without nil.
+  Answers the chains' own types (in order), the context after ALL chains, the elaborated chains. A
+  successful `x =P` records the narrowed type of `x` in the context. -/
+  def inferSeqChains (c : Ctx) (Γ : TEnv) (ft : Nat) : List Chain → Option (List Nat × TEnv × List Chain)
+    | [] => some ([], Γ, [])
+    | ch :: rest =>
+      match inferChain c true Γ ft ch with
+      | some (t, Γ1, ch') =>
+        let Γ2 : TEnv := narrowVar c Γ Γ1 ch
+        match rest with
+        | [] => some ([t], Γ2, [ch'])
+        | _ :: _ =>
+          match withoutNil c.T (c.cfg.fuel + 2) t with
+          | some t' =>
+            match inferSeqChains c Γ2 t' rest with
+            | some (ts, Γ3, rest') => some (t :: ts, Γ3, ch' :: rest')
+            | none => none
+          | none => none
+      | none => none
+
+  /-- the branches of a block. Answers the branches' result types, whether the block is exhaustive
+  (the last branch's condition cannot be nil), the elaborated branches. -/
+  def inferBranches (c : Ctx) (Γ : TEnv) (ft : Nat) : List Branch → Option (List Nat × Bool × List Branch)
+    | [] => some ([], false, [])
+    | .mk cond cons :: rest =>
+      match inferSeqChains c Γ ft cond with
+      | some (ts, Γ1, cond') =>
+        match seqType c ts with
+        | some tc =>
+          match inferCons c Γ1 (narrowParam c ft cond) tc rest.isEmpty cons with
+          | some (tb, cons') =>
+            match inferBranches c Γ ft rest with
+            | some (tys, ex, rest') =>
+              some (tb :: tys, exhaustiveFlag c rest.isEmpty tc ex, .mk cond' cons' :: rest')
+            | none => none
+          | none => none
+        | none => none
+      | none => none
+
+  /-- a branch's result: the consequence's type (typed with the narrowed parameter `ftc`), or the
+  condition's own type `tc` — without nil unless the branch is the last one. -/
+  def inferCons (c : Ctx) (Γ1 : TEnv) (ftc tc : Nat) (isLast : Bool) :
+      Option (List Chain) → Option (Nat × Option (List Chain))
+    | none =>
+      if isLast then some (tc, none)
+      else
+        match withoutNil c.T (c.cfg.fuel + 2) tc with
+        | some t => some (t, none)
+        | none => none
+    | some cs =>
+      match inferSeqChains c Γ1 ftc cs with
+      | some (ts2, _, cs') =>
+        match seqType c ts2 with
+        | some t => some (t, some cs')
+        | none => none
+      | none => none
 end
 
-/-! ### Sequences -/
-
-/-- the chains of a sequence: each later chain starts from the previous result without nil. Answers
-the chains' own types (in order) and the elaborated chains. -/
-def inferSeqChains (c : Ctx) : TEnv → Nat → List Chain → Option (List Nat × List Chain)
-  | _, _, [] => some ([], [])
-  | Γ, ft, ch :: rest =>
-    match inferChain c Γ ft ch with
-    | some (t, Γ1, ch') =>
-      match rest with
-      | [] => some ([t], [ch'])
-      | _ :: _ =>
-        match withoutNil c.T (c.cfg.fuel + 2) t with
-        | some t' =>
-          match inferSeqChains c Γ1 t' rest with
-          | some (ts, rest') => some (t :: ts, ch' :: rest')
-          | none => none
-        | none => none
-    | none => none
-
-/-- `compile_sequence`: the last chain's type, with nil added when the nil bookkeeping of
-`Sequence.lean` (under the configured rule) says the sequence can short-circuit. -/
+/-- a sequence: its type and the elaborated chains. -/
 def inferSeq (c : Ctx) (Γ : TEnv) (ft : Nat) (cs : List Chain) : Option (Nat × List Chain) :=
   match inferSeqChains c Γ ft cs with
-  | some (ts, cs') =>
-    match ts.getLast? with
+  | some (ts, _, cs') =>
+    match seqType c ts with
+    | some t => some (t, cs')
     | none => none
-    | some tl =>
-      if seqNilable c.cfg.seq (ts.map (nilIn c.T (c.cfg.fuel + 2))) then
-        match nilTy c with
-        | some n =>
-          match unionPair c.T (c.cfg.fuel + 2) tl n with
-          | some u => some (u, cs')
-          | none => none
-        | none => none
-      else some (tl, cs')
   | none => none
 
 /-- a whole program: one sequence starting from nil. -/
